@@ -91,7 +91,7 @@ pub fn dispatch(p: &[String]) -> String {
         "from_bits" => generated::from_bits(&p[1], p[2].parse::<u32>().unwrap()),
         "operand_params" => generated::operand_params(&p[1], p[2].parse::<u32>().unwrap_or(0)),
         "operand_requires" => generated::operand_requires(&p[1], p[2].parse::<u32>().unwrap_or(0)),
-        "builder_ids" => generated::builder_ids(&p[1], p[2].parse::<u32>().unwrap_or(2), p[3].parse::<u32>().unwrap_or(5), p.len() > 4 && p[4] == "implicit"),
+        "builder_ids" => generated::builder_ids(&p[1], p[2].parse::<u32>().unwrap_or(2), p[3].parse::<u32>().unwrap_or(5), if p.len() > 4 && p[4] == "implicit" { 1 } else if p.len() > 4 && p[4] == "lastid" { 2 } else { 0 }),
         "builder_roundtrip" => generated::builder_roundtrip(&p[1]),
         "builder_call" => {
             generated::set_ip(if p.len() > 3 { p[3].parse::<u32>().unwrap_or(0) } else { 0 });
@@ -182,7 +182,7 @@ pub fn dispatch(p: &[String]) -> String {
         }
         "parse_assemble_kind" => generated::parse_assemble_kind(&p[1], p[2].parse::<u64>().unwrap_or(0) as u32, if p.len() > 3 { p[3].parse::<u64>().unwrap_or(0) as u32 } else { 0 }),
         "id_ref_any" => generated::id_ref_any(&p[1], p[2].parse::<u64>().unwrap_or(0)),
-        "builder_type_twice" => generated::builder_type_twice_mode(&p[1], p.len() > 2 && p[2] == "explicit"),
+        "builder_type_twice" => generated::builder_type_twice_mode(&p[1], if p.len() > 2 && p[2] == "explicit" { 1 } else if p.len() > 2 && p[2] == "decorated" { 2 } else { 0 }),
         "storage_history" => {
             // n appends of distinct values from Storage::new(); then every token must have its index and yield its value
             use rspirv::sr::storage::Storage;
